@@ -3,6 +3,8 @@
 # current tree (binary must be built: ./check <ID> quick once). Any non-zero exit is printed. For false-alarm hunting.
 FROM=$1; TO=$2; shift 2; PROPS=${*:-C04 C12 C14 C17}
 HERE=$(cd "$(dirname "$0")/.." && pwd)
+# never trust a binary left over from a patched tree: rebuild against /repo as it is now
+"$HERE/check" build || exit 2
 bad=0
 for s in $(seq "$FROM" "$TO"); do for p in $PROPS; do
   out=$(VERIF_DIR="$HERE" VERIF_NO_EVIDENCE=1 VERIF_SEED=$s timeout 600 "$HERE/sim/target/release/simdec" "$p" quick 2>&1); rc=$?
